@@ -128,6 +128,7 @@ static int run_factor_case(const tmat_t *T, const fcfg_t *c, fres_t *r)
     memset(r, 0, sizeof *r);
     r->n = n;
     tm_to_dense(T, r->A);
+    for (int i = 0; i < n; i++) for (int j = 0; j < n; j++) r->A[i][j] = S2L(L2S(r->A[i][j]));     /* the matrix of the problem is what the library is handed: working precision */
     vf_ienv[1] = c->w; vf_ienv[2] = c->relax; vf_ienv[3] = c->maxsuper; vf_ienv[4] = c->rowblk; vf_ienv[5] = c->colblk;
     vf_ienv[6] = -50; vf_ienv[7] = c->fill7; vf_ienv[8] = c->fill8;
     if (c->dyn) setenv("SuperLU_DYNAMIC_SNODE_STORE", "1", 1); else unsetenv("SuperLU_DYNAMIC_SNODE_STORE");
